@@ -52,8 +52,8 @@ type CaseC10 struct {
 	Paradigm   string     `json:"paradigm"`
 	Global     []H10      `json:"global,omitempty"`
 	PerCall    [][]H10    `json:"percall,omitempty"`    // one WithCallbacks option per entry
-	Designated []D10 `json:"designated,omitempty"` // handlers designated to lambda nodes (several options may name the same node)
-	Release []int `json:"release,omitempty"` // order in which gated bodies are released
+	Designated []D10      `json:"designated,omitempty"` // handlers designated to lambda nodes (several options may name the same node)
+	Release    []int      `json:"release,omitempty"`    // order in which gated bodies are released
 }
 
 type ev10 struct {
